@@ -303,6 +303,7 @@ def run(ctx, rep):
     # hash_is_zero and for a test of the hash size: a spelling, not the behaviour)
     chg_decision_rules(P, rep, rid_safe='R-C05-6r')
     blockcmp_size_rule(P, rep, 'R-C05-14')
+    failed_index_vectors_rule(P, rep, 'R-C05-15')
     sy = P.fn('state_sync_process')
     hc2 = [c for c in C04.hash_compares(sy) if 'failed[' not in ' '.join(sy.expr(o) for o in c.ops)]
     okc = False
@@ -579,6 +580,145 @@ def blockcmp_size_rule(P, rep, rid):
                       function=fn, construct='blockcmp length')
     if n < 2:
         raise AnalysisBroken('blockcmp call sites not found (%d)' % n)
+
+
+def failed_index_vectors_rule(P, rep, rid):
+    """repair_step() copies the indexes of the failed blocks of the stripe into `int id[LEV_MAX]` and the parities to use into
+    `int ip[LEV_MAX]`.  The number of failed blocks is whatever the stripe has -- 36 when a controller with 36 disks is not
+    mounted -- not at most the number of parities.  The function is interpreted (E10, local arrays bounded by their declared
+    length) up to its first recovery attempt for every count of failed blocks 1..10 and every level 1..6: no store outside a local
+    array.  (With more failures than parities the answer must be `no strategy`, not a smashed stack.)"""
+    from .. import region as RG
+    rep.rule(rid, 'repair_step: for 1..10 failed blocks and 1..6 parity levels no index vector (id[], ip[]) is written outside its declared length before the first recovery attempt', 60)
+    f = P.fn('repair_step')
+    rep.analysed(f)
+    fs = P.distructs.get('failed_struct'); bl = P.distructs.get('snapraid_block'); sl = P.distructs.get('snapraid_state')
+    if not fs or not bl or not sl:
+        raise AnalysisBroken('layouts of failed_struct / snapraid_block / snapraid_state not found')
+    fo = {m['name']: m['off'] for m in fs['members']}; bo = {m['name']: m['off'] for m in bl['members']}; so = {m['name']: m['off'] for m in sl['members']}
+    from .C06 import blk_value
+    st = blk_value(P)
+    n = 0
+    for level in range(1, 7):
+        for cnt in range(1, 11):
+            class _Attempt(Exception):
+                pass
+            def ext(ins, args):
+                c = ins.callee
+                if c in ('log_tag', 'log_fatal', 'log_error'):
+                    return (0,)
+                if c in ('raid_gen', 'raid_data', 'raid_rec', 'memcpy', 'llvm.memcpy.p0i8.p0i8.i64', 'is_parity_matching', 'is_hash_matching'):
+                    raise _Attempt()
+                return None
+            R = RG.Region(P, extern=ext)
+            R.discover = []
+            fp = RG.P_(('obj', 'failed'), 0); sp = RG.P_(('obj', 'state'), 0)
+            R.zero_regions.add(sp.reg)
+            R.mem[(sp.reg, so['level'])] = level
+            for k in range(cnt):
+                b = k * fs['size']
+                bp = RG.P_(('obj', 'blk%d' % k), 0)
+                R.mem[(bp.reg, bo['state'])] = st['BLK']
+                R.mem[(fp.reg, b + fo['is_bad'])] = 1; R.mem[(fp.reg, b + fo['is_outofdate'])] = 0
+                R.mem[(fp.reg, b + fo['index'])] = k; R.mem[(fp.reg, b + fo['block'])] = bp
+            fmap = R.array('failed_map', list(range(cnt)), 4)
+            recov = R.array('buffer_recov', [RG.P_(('obj', 'par%d' % k), 0) for k in range(6)], 8)
+            buf = R.array('buffer', [RG.P_(('obj', 'buf%d' % k), 0) for k in range(32)], 8)
+            n += 1
+            bad = None
+            try:
+                R.run(f, 0, [sp, 0, 0, 16, fp, fmap, cnt, buf, recov, RG.P_(('obj', 'zero'), 0)])
+            except _Attempt:
+                pass
+            except RG.OutOfBounds as e:
+                bad = str(e)
+            except RG.Unsupported as e:
+                raise AnalysisBroken('cannot interpret repair_step: %s' % e)
+            rep.check(bad is None, rid, '%d failed blocks, %d parity levels' % (cnt, level), f.file,
+                      'index vectors stay within their length' if bad is None else bad + ': a stripe with more failed blocks than the vector has entries (a shelf of disks not mounted) overwrites the stack of check / fix -- a hardened build dies with `stack smashing detected` instead of listing the files as unrecoverable',
+                      function='repair_step', construct='index vector overflow')
+
+
+def old_state_strategy_rule(P, rep, rid):
+    """second strategy of repair(): the parity is assumed to describe the array BEFORE the interrupted sync.  Every block that changed
+    since (CHG, REP, DELETED) has unknown old content and costs one parity to reconstruct -- except a CHG block whose past hash is
+    the ZERO marker: the position was empty, its old content is known to be zero, it is zero-filled and costs nothing.  That is
+    what keeps the files synced before an adds-only sync recoverable from as many lost disks as there are parities.  The
+    classification loop is interpreted (E10) for one entry over state x is_bad x past hash kind."""
+    from .. import region as RG
+    from .C06 import blk_value
+    rep.rule(rid, 'repair, old-state strategy: a CHG block with the ZERO past hash is zero-filled and not counted among the blocks to reconstruct, whether or not it is readable; a readable BLK block is not counted; every other changed block is counted or fetched', 10)
+    f = P.fn('repair')
+    rep.analysed(f)
+    st = dict(blk_value(P))
+    rd = P.fn('state_read_content')
+    dele = [rd.const_of(c.ops[1]) for c in rd.calls('block_state_set') if rd.const_of(c.ops[1]) not in st.values()]
+    if len(set(dele)) != 1:
+        raise AnalysisBroken('DELETED state constant not recovered')
+    st['DELETED'] = dele[0]
+    # the loop of the second strategy: the loop over failed[] that stores into failed_map[]
+    cands = []
+    for h, body in f.loops.items():
+        if any(i.op == 'store' and 'failed_map[' in f.expr(i.ops[1]) and i.block in body for i in f.all_insts()) and any(c.block in body for c in f.calls('block_state_get')) \
+                and any((c.callee or '').startswith('llvm.memset') and c.block in body for c in f.calls()):
+            cands.append(h)
+    if len(cands) != 1:
+        raise AnalysisBroken('repair: the classification loop of the old-state strategy was not found (%d candidates)' % len(cands))
+    h = cands[0]
+    body = f.loops[h]
+    fs = P.distructs.get('failed_struct'); bl = P.distructs.get('snapraid_block')
+    fo = {m['name']: m['off'] for m in fs['members']}; bo = {m['name']: m['off'] for m in bl['members']}
+    nn = [i for i in f.all_insts() if i.op == 'alloca' and (i.var or '') == 'n']
+    jj = [i for i in f.all_insts() if i.op == 'alloca' and (i.var or '') == 'j']
+    if len(nn) != 1 or len(jj) != 1:
+        raise AnalysisBroken('repair: locals n / j not identified')
+    for state_name in ('BLK', 'CHG', 'REP', 'DELETED'):
+        for is_bad in (0, 1):
+            for kind in (('ZERO', 'REAL') if state_name in ('CHG',) else ('REAL',)):
+                zeroed = [0]; fetched = [0]
+                def ext(ins, args):
+                    c = ins.callee or ''
+                    if c.startswith('llvm.memset'):
+                        zeroed[0] += 1
+                        return (0,)
+                    if c == 'state_import_fetch':
+                        fetched[0] += 1
+                        return (1,)          # not found
+                    if c in ('log_tag', 'log_fatal', '__assert_fail'):
+                        return (0,)
+                    return None
+                R = RG.Region(P, extern=ext)
+                R.discover = []
+                fp = RG.P_(('obj', 'failed'), 0); bp = RG.P_(('obj', 'blk'), 0); sp = RG.P_(('obj', 'state'), 0)
+                R.zero_regions.add(sp.reg)
+                R.mem[(fp.reg, fo['is_bad'])] = is_bad; R.mem[(fp.reg, fo['is_outofdate'])] = 0; R.mem[(fp.reg, fo['index'])] = 0; R.mem[(fp.reg, fo['block'])] = bp
+                R.mem[(bp.reg, bo['state'])] = st[state_name]
+                for k_ in range(16):
+                    R.mem[(bp.reg, bo['hash'] + k_)] = 0xFF if kind == 'ZERO' else (0x21 + 5 * k_) & 0xff
+                R.mem[(('glob', 'BLOCK_HASH_SIZE'), 0)] = 16
+                R.set_local(f, 'failed', fp); R.set_local(f, 'failed_count', 1); R.set_local(f, 'state', sp); R.set_local(f, 'rehash', 0)
+                R.set_local(f, 'buffer', R.array('buffer', [RG.P_(('obj', 'buf0'), 0)], 8))
+                R.set_local(f, 'failed_map', R.array('failed_map', [99, 99], 4))
+                R.mem[(R.local_by_id(f, nn[0].id).reg, 0)] = 0
+                R.mem[(R.local_by_id(f, jj[0].id).reg, 0)] = 0
+                try:
+                    R.run(f, h, stop=lambda ins: f.insts.get(ins.id) is ins and ins.block not in body and ins.block != h)
+                except RG.Stop:
+                    pass
+                except RG.Unsupported as e:
+                    raise AnalysisBroken('cannot interpret the old-state strategy of repair: %s' % e)
+                n_ = R.mem[(R.local_by_id(f, nn[0].id).reg, 0)]
+                if state_name == 'CHG' and kind == 'ZERO':
+                    ok = n_ == 0
+                    why = 'its old content is known to be zero: it must be zero-filled and cost no parity; counted as one more block to reconstruct, an adds-only interrupted sync leaves the files synced before recoverable from one device less than there are parities'
+                elif state_name == 'BLK':
+                    ok = n_ == is_bad
+                    why = 'a synced block is reconstructed iff it is bad'
+                else:
+                    ok = n_ == 1
+                    why = 'a changed block with unknown old content has to be reconstructed (or fetched)'
+                rep.check(ok, rid, '%s block, %s, past hash %s' % (state_name, 'bad' if is_bad else 'readable', kind), f.file,
+                          'counted among the blocks to reconstruct: %d' % n_ if ok else 'counted among the blocks to reconstruct: %d -- %s' % (n_, why), function='repair', construct='old-state classification')
 
 
 def state_case_entries(f, k):
